@@ -63,6 +63,8 @@ profile('core-eager', P.gen_core_eager)
 
 profile('id-reuse', PH.gen_id_reuse)
 
+profile('peer-script', PP.gen_peer_script)
+
 # property -> {'profiles': [(name, quick_runs, thorough_runs)], 'oracles': [...]}
 CHECKS = {
     'C01': {'profiles': [('core', 3000, 120000), ('core-msg', 1000, 40000), ('core-frag', 1500, 60000),
@@ -82,8 +84,10 @@ CHECKS = {
     'C13': {'profiles': [('core-ids', 5000, 200000), ('core', 1000, 40000), ('id-reuse', 2000, 60000)],
             'oracles': {'core-ids': [O.oracle_c13], 'core': [O.oracle_c13], 'id-reuse': [PH.oracle_c13_reuse]},
             'level': 'exploration'},
-    'C07': {'profiles': [('core-cancel', 2500, 100000), ('core-ends', 2500, 100000), ('core', 1000, 40000)],
-            'oracles': [O.oracle_c07], 'level': 'exploration'},
+    'C07': {'profiles': [('core-cancel', 2000, 80000), ('core-ends', 2000, 80000), ('core', 1000, 40000),
+                         ('peer-script', 12000, 400000), ('cut', 2000, 80000)],
+            'oracles': {'core-cancel': [O.oracle_c07], 'core-ends': [O.oracle_c07], 'core': [O.oracle_c07],
+                        'cut': [O.oracle_c07], 'peer-script': [PP.oracle_c07_peer]}, 'level': 'exploration'},
     'C09': {'profiles': [('core-cancel', 4000, 150000), ('cancel-sweep', 60, 2500), ('core-lease', 1000, 40000)],
             'oracles': [O.oracle_c09], 'level': 'exploration'},
     'C11': {'profiles': [('cut', 4000, 150000), ('cut-sweep', 48, 2000)],
